@@ -169,7 +169,7 @@ Lemma inva_c g s s' e : InvA g s -> step_c g s = Some (s', e) -> InvA g s'.
 Proof.
   intros [Hs Hc Hb Hk] H. unfold step_c, with_cp in H.
   destruct s as [n qi bf qo c b fl wk cs]; cbn in *.
-  destruct c as [| | | |m| | | | | | | |]; break_match_hyp H; inv H; constructor; cbn in *; auto; list_norm; auto.
+  destruct c as [| | | |m| | | | | | |]; break_match_hyp H; inv H; constructor; cbn in *; auto; list_norm; auto.
   all: try (now rewrite Hb).
 Qed.
 
@@ -272,8 +272,8 @@ Qed.
 Definition c_room (c : cpc) : bool := match c with CGet | CProc _ => true | _ => false end.
 Definition c_fullwait (c : cpc) : bool := match c with CFullWait => true | _ => false end.
 Definition c_enter (c : cpc) : bool := match c with CEnterWait => true | _ => false end.
-Definition c_stopping (c : cpc) : bool := match c with CStop1 | CStop2 | CDone => true | _ => false end.
-Definition c_tookstop (c : cpc) : bool := match c with CProc Stop | CStop1 | CStop2 | CDone => true | _ => false end.
+Definition c_stopping (c : cpc) : bool := match c with CStop1 | CDone => true | _ => false end.
+Definition c_tookstop (c : cpc) : bool := match c with CProc Stop | CStop1 | CDone => true | _ => false end.
 Definition b_putback (b : bpc) : bool := match b with BPutBack _ => true | _ => false end.
 Definition b_stopped (b : bpc) : bool := match b with BStop1 | BStop2 | BDone => true | _ => false end.
 
@@ -364,7 +364,7 @@ Lemma invb_c g s s' e : locked_check g = true -> InvB g s -> step_c g s = Some (
 Proof.
   intros HL [H1 H2 H3 H4 H5 H6 H7 H8 H9 H10 H11 H12 H13 H14 H15] H. unfold step_c, with_cp, is_full, cap in H.
   destruct s as [n qi bf qo c b fl wk cs]; cbn [env_next qin buf qout cp bp flag woken calls] in *. rewrite HL in H.
-  destruct c as [| | | |m| | | | | | | |]; break_match_hyp H; inv H; bool_to_prop.
+  destruct c as [| | | |m| | | | | | |]; break_match_hyp H; inv H; bool_to_prop.
   all: try (match goal with m : msg |- _ => destruct m end).
   all: invb_close H1 H2 H3 H4 H5 H6 H7 H8 H9 H10 H11 H12 H13 H14 H15.
 Qed.
@@ -410,7 +410,7 @@ Definition c_blocked (g : cfg) (s : state) : Prop :=
 Lemma c_blocked_of g s : locked_check g = true -> step_c g s = None -> c_blocked g s.
 Proof.
   intros HL H. unfold step_c, c_blocked in *. rewrite HL in H.
-  destruct (cp s) as [| | | |[u [| |]|]| | | | | | | |]; try discriminate H; auto.
+  destruct (cp s) as [| | | |[u [| |]|]| | | | | | |]; try discriminate H; auto.
   - destruct (is_full g s); discriminate.
   - destruct (woken s); [|reflexivity]. destruct (is_full g s); discriminate.
   - destruct (qin s); [reflexivity|discriminate].
@@ -459,7 +459,7 @@ Proof.
   destruct s as [n qi bf qo c b fl wk cs]; cbn [env_next qin buf qout cp bp flag woken calls] in *.
   clear H9 H10 H11 H12 H13 H14.
   destruct b as [|l|l|l|l|f [|u r]| | |]; try contradiction; cbn [shape_b] in As; try congruence;
-    destruct c as [| | | |[u' [| |]|]| | | | | | | |]; try contradiction; subst; bnorm; bool_to_prop; try lia.
+    destruct c as [| | | |[u' [| |]|]| | | | | | |]; try contradiction; subst; bnorm; bool_to_prop; try lia.
 Qed.
 
 (* ---------------------------------------------------------------------------------------------- *)
@@ -502,4 +502,67 @@ Lemma puts_never_block g sched :
 Proof.
   intros HL s H. destruct (invb_run g sched HL) as [_ Hr _ _ _ _ _ Hp _ _ _ _ _ _ _].
   fold s in Hr, Hp. unfold is_full, cap. apply Nat.leb_gt. destruct H as [H|H]; auto.
+Qed.
+
+(* ---- the end marker is the last thing the worker puts into its output queue (repair N1) ---- *)
+Definition is_ostop (m : omsg) : bool := match m with OStop => true | _ => false end.
+Definition no_ostop (l : list omsg) : bool := forallb (fun m => negb (is_ostop m)) l.
+
+Definition ML (s : state) : Prop :=
+  no_ostop (qout s) = true \/ (exists a, qout s = a ++ [OStop] /\ no_ostop a = true /\ bp s = BDone).
+
+Lemma no_ostop_snoc l m : no_ostop (l ++ [m]) = no_ostop l && negb (is_ostop m).
+Proof. unfold no_ostop. rewrite forallb_app. cbn. now rewrite andb_true_r. Qed.
+
+Lemma ml_keep s s' : ML s -> qout s' = qout s -> bp s' = bp s -> ML s'.
+Proof. unfold ML. intros H -> ->. exact H. Qed.
+
+Lemma ml_step g s l s' e : InvB g s -> ML s -> step g s l = Some (s', e) -> ML s'.
+Proof.
+  intros HB H Hs. destruct l as [| | |ex]; cbn in Hs.
+  - unfold step_env in Hs. break_match_hyp Hs; inv Hs; eapply ml_keep; eauto.
+  - (* collector *)
+    unfold step_c, with_cp in Hs. break_match_hyp Hs; inv Hs; try (eapply ml_keep; eauto; reflexivity).
+    (* the collector short-circuits an exception to q_out: the consumer has not finished *)
+    all: destruct H as [H|(a & Hq & Ha & Hb)];
+      [ left; cbn; rewrite no_ostop_snoc, H; reflexivity
+      | exfalso; pose proof (b_stop_c _ _ HB) as Hc; rewrite Hb in Hc; cbn in Hc;
+        match goal with E : cp _ = _ |- _ => rewrite E in Hc end; specialize (Hc eq_refl); discriminate ].
+  - unfold step_csilent, with_cp in Hs. break_match_hyp Hs; inv Hs; eapply ml_keep; eauto.
+  - (* consumer *)
+    unfold step_b in Hs. break_match_hyp Hs; inv Hs.
+    all: destruct H as [H|(a & Hq & Ha & Hb)]; [|match goal with E : bp _ = _ |- _ => rewrite E in Hb; discriminate Hb end].
+    all: first [ solve [left; exact H]
+               | solve [left; cbn [qout]; rewrite no_ostop_snoc, H; try match goal with |- context [if ?b then _ else _] => destruct b end; reflexivity]
+               | solve [right; exists (qout s); cbn [qout bp]; repeat split; auto] ].
+Qed.
+
+Lemma ml_run g sched : locked_check g = true -> ML (run step g (init g) sched).
+Proof.
+  intros HL. assert (H : InvB g (run step g (init g) sched) /\ ML (run step g (init g) sched)).
+  { apply (inv_run step g (fun s => InvB g s /\ ML s)).
+    - intros s l s' e [H1 H2] Hs. split; [eapply invb_step; eauto|eapply ml_step; eauto].
+    - split; [apply invb_init|left; reflexivity]. }
+  exact (proj2 H).
+Qed.
+
+Lemma split_last_stop a b a' : a ++ OStop :: b = a' ++ [OStop] -> no_ostop a' = true -> b = [] /\ no_ostop a = true.
+Proof.
+  revert a'. induction a as [|h t IH]; intros a' Hq Ha.
+  - destruct a' as [|h' t']; cbn in Hq.
+    + injection Hq as Hb. subst b. auto.
+    + injection Hq as Hh _. subst h'. cbn in Ha. discriminate.
+  - destruct a' as [|h' t']; cbn in Hq.
+    + injection Hq as _ Hq. destruct t; discriminate.
+    + injection Hq as Hh0 Hq. subst h'. cbn in Ha. apply andb_true_iff in Ha as [Hh Ht]. destruct (IH _ Hq Ht) as [-> Hx].
+      split; [reflexivity|]. change (no_ostop (h :: t)) with (negb (is_ostop h) && no_ostop t). rewrite Hh, Hx. reflexivity.
+Qed.
+
+(* nothing follows the end marker in the worker's output queue, and there is at most one *)
+Lemma marker_is_last g sched a b :
+  locked_check g = true -> qout (run step g (init g) sched) = a ++ OStop :: b -> b = [] /\ no_ostop a = true.
+Proof.
+  intros HL Hq. destruct (ml_run g sched HL) as [H|(a' & Hq' & Ha' & _)].
+  - rewrite Hq in H. unfold no_ostop in H. rewrite forallb_app in H. cbn in H. rewrite andb_false_r in H. discriminate.
+  - rewrite Hq in Hq'. eapply split_last_stop; eauto.
 Qed.
